@@ -36,7 +36,7 @@ CIRCUIT = [
          src=['F:StarkProofTarget.trace_cap', 'F:StarkProofTarget.auxiliary_polys_cap', 'F:StarkProofTarget.quotient_polys_cap', 'F:StarkProofTarget.openings', 'c:to_fri_openings',
               'F:StarkProofChallengesTarget.fri_challenges', 'c:fri_instance_target', 'F:StarkProofTarget.opening_proof', 'c:fri_params', 'F:StarkProofTarget.degree_bits', 'c:split_le', 'p:min_degree_bits_to_support'],
          why='variable-degree FRI twin tied to the degree_bits target'),
-    dict(id='stark.consumer.circuit', fn='starky::vanishing_poly::compute_eval_vanishing_poly_circuit', crate='starky', kind='call', callee='new',
+    dict(id='stark.consumer.circuit', fn='starky::vanishing_poly::compute_eval_vanishing_poly_circuit', crate='starky', kind='call', callee='RecursiveConstraintConsumer::new',
          src=['p:alphas', 'p:zeta', 'c:eval_l_0_and_l_last_circuit'], why='recursive consumer built from alphas, zeta - g^-1, L_0, L_last'),
     dict(id='stark.eval.circuit', fn='starky::vanishing_poly::compute_eval_vanishing_poly_circuit', crate='starky', kind='call', callee='eval_vanishing_poly_circuit',
          src=['p:stark', 'F:StarkOpeningSetTarget.local_values', 'F:StarkOpeningSetTarget.next_values', 'p:public_inputs', 'F:StarkOpeningSetTarget.auxiliary_polys', 'F:StarkOpeningSetTarget.auxiliary_polys_next',
